@@ -59,5 +59,8 @@ func TryAbsToRel(abs string) string {
 // IsExtOnly checks whether path points to a file with no name but with
 // an extension, i.e. ".yaml"
 func IsExtOnly(path string) bool {
-	return filepath.Base(path) == filepath.Ext(path)
+	ext := filepath.Ext(path)
+	// "." (the current directory) has the "extension" "." but is not a file
+	// name made of an extension only
+	return len(ext) > 1 && filepath.Base(path) == ext
 }
